@@ -5,7 +5,7 @@ from ..core import core_oracle
 
 PROP = 'C04'
 LEVEL = 'exploration'
-BUDGET = {'quick': 4000, 'thorough': 80000}
+BUDGET = {'quick': 9600, 'thorough': 160000}
 RULE = ('cases = well-formed chart with dense same-event transitions (2 event names, 8-16 '
         'transitions, duplicated transitions on one source, 45% orthogonal roots) + history with '
         'guard valuations biased to all-true. For the fired set F of each step the pairs are '
@@ -15,6 +15,8 @@ RULE = ('cases = well-formed chart with dense same-event transitions (2 event na
         'the still pending event), and no such error when all pairs are in distinct regions and '
         'stay inside. Non-trivial = step with |F|>=2; distinct = sha1(chart, configuration, F).')
 ASSUMPTIONS = ['guards are pure table look-ups (their evaluation is not "executed code")']
+LEAFY_MIX = (('sibling', 45), ('other', 35), ('orthin', 5), ('anc', 5), ('desc', 0), ('hist', 0),
+             ('internal', 10))
 MIX = (('sibling', 35), ('other', 10), ('orthin', 10), ('anc', 15), ('desc', 5), ('hist', 5),
        ('internal', 20))
 
@@ -29,7 +31,27 @@ def strategy(tier):
                                p_sends=0.1))
         ops = draw(gen.histories(spec, 6, 18, n_events=2, p_all=0.5, p_none=0.05))
         return {'spec': spec, 'ops': ops}
-    return cases()
+
+    @st.composite
+    def leafy(draw):
+        # nested orthogonal states, one transition per leaf and event: the fired sets are pairwise
+        # in distinct regions, so only the "leaves its region" clause decides (3+ transitions)
+        spec = draw(gen.charts(max_states=16 if big else 13, max_depth=5, mix=LEAFY_MIX,
+                               n_events=1, min_tr=14, max_tr=26, p_orth_root=0.8, orth_weight=6,
+                               p_eventless=0.0, p_hist=0.1, allow_final=False, priorities=[0]))
+        t = gen.S.Tree(spec)
+        seen, keep = set(), []
+        for tr in spec['transitions']:
+            if t.kind[tr['source']] != 'basic' or (tr['source'], tr['event']) in seen:
+                continue
+            seen.add((tr['source'], tr['event']))
+            keep.append(tr)
+        for i, tr in enumerate(keep):
+            tr['id'] = i
+        spec['transitions'] = keep
+        ops = draw(gen.histories(spec, 4, 12, n_events=1, p_all=0.7, p_none=0.0))
+        return {'spec': spec, 'ops': ops}
+    return st.one_of(cases(), cases(), leafy())
 
 
 def oracle(case):
